@@ -162,6 +162,8 @@ type tScreen struct {
 	cursorStyles map[CursorStyle]string
 	cursorStyle  CursorStyle
 	cursorColor  Color
+	cursorStyled bool // a non-default cursor shape has been sent to the terminal
+	cursorTinted bool // a cursor color has been sent to the terminal
 	cursorRGB    string
 	cursorFg     string
 	saved        *term.State
@@ -979,14 +981,17 @@ func (t *tScreen) showCursor() {
 	if t.cursorStyles != nil {
 		if esc, ok := t.cursorStyles[t.cursorStyle]; ok {
 			t.TPuts(esc)
+			t.cursorStyled = t.cursorStyle != CursorStyleDefault
 		}
 	}
 	if t.cursorRGB != "" {
 		if t.cursorColor == ColorReset {
 			t.TPuts(t.cursorFg)
+			t.cursorTinted = false
 		} else if t.cursorColor.Valid() {
 			r, g, b := t.cursorColor.RGB()
 			t.TPuts(t.ti.TParm(t.cursorRGB, int(r), int(g), int(b)))
+			t.cursorTinted = true
 		}
 	}
 	t.cx = x
@@ -2095,11 +2100,15 @@ func (t *tScreen) disengage() {
 	ti := t.ti
 	t.cells.Resize(0, 0)
 	t.TPuts(ti.ShowCursor)
-	if t.cursorStyles != nil && t.cursorStyle != CursorStyleDefault {
+	// undo what was actually sent: the application may have switched the
+	// requested style or color back since the last Show
+	if t.cursorStyles != nil && (t.cursorStyled || t.cursorStyle != CursorStyleDefault) {
 		t.TPuts(t.cursorStyles[CursorStyleDefault])
+		t.cursorStyled = false
 	}
-	if t.cursorFg != "" && t.cursorColor.Valid() {
+	if t.cursorFg != "" && (t.cursorTinted || t.cursorColor.Valid()) {
 		t.TPuts(t.cursorFg)
+		t.cursorTinted = false
 	}
 	t.TPuts(ti.ResetFgBg)
 	t.TPuts(ti.AttrOff)
